@@ -347,8 +347,9 @@ func (s *Srv) WaitCloses(n int64, d time.Duration) bool {
 
 // Client is a raw LDAP client over sber.
 type Client struct {
-	C  net.Conn
-	br *bufio.Reader
+	C     net.Conn
+	Under net.Conn // the TCP connection underneath a TLS session (nil for plain connections)
+	br    *bufio.Reader
 }
 
 func dialRaw(addr string, tc *tls.Config) (*Client, error) {
@@ -365,7 +366,7 @@ func dialRaw(addr string, tc *tls.Config) (*Client, error) {
 			return nil, err
 		}
 		c.SetDeadline(time.Time{})
-		return &Client{C: t, br: bufio.NewReaderSize(t, 64<<10)}, nil
+		return &Client{C: t, Under: c, br: bufio.NewReaderSize(t, 64<<10)}, nil
 	}
 	return &Client{C: c, br: bufio.NewReaderSize(c, 64<<10)}, nil
 }
@@ -414,6 +415,21 @@ func (c *Client) Close() { c.C.Close() }
 func (c *Client) Reset() {
 	if t, ok := c.C.(*net.TCPConn); ok {
 		t.SetLinger(0)
+	}
+	if t, ok := c.Under.(*net.TCPConn); ok {
+		// a TLS session whose peer vanishes: RST, no close_notify
+		t.SetLinger(0)
+		t.Close()
+		return
+	}
+	c.C.Close()
+}
+
+// Drop closes the transport without any TLS close_notify (FIN only).
+func (c *Client) Drop() {
+	if c.Under != nil {
+		c.Under.Close()
+		return
 	}
 	c.C.Close()
 }
